@@ -46,7 +46,7 @@ REAL = ['asyncssh forward.py, listener.py, socks.py, connection/channel '
         'forwarding paths of both endpoints']
 STUB = ['event loop + clock', 'TCP/UNIX sockets and listeners', 'DNS',
         'executor', 'origin and destination applications']
-PROBES = ['mode_local', 'mode_socks', 'mode_remote', 'mode_local_unix',
+PROBES = ['dynamic_listen_ports', 'mode_local', 'mode_socks', 'mode_remote', 'mode_local_unix',
           'early_data', 'half_close', 'origin_abort', 'dest_close_first',
           'slow_consumer', 'refused_by_policy', 'ssh_cut',
           'origin_gone_during_open', 'multi_conn', 'listen_refused']
@@ -118,6 +118,7 @@ def gen_plan(rng):
         'listen_refused': rng.chance(10),
         'window': rng.choice([1000, 65536, 2097152]),
         'cut': cut,
+        'dyn_ports': mode == 'remote' and rng.chance(40),
     }
 
 
@@ -490,9 +491,14 @@ def run_plan(plan, sched_seed=None, sched_replay=None):
                         '/listen%d.sock' % i, '/dest%d.sock' % i)
             else:
                 for i in (0, 1):
+                    # dyn_ports: the server picks the ports; both listeners
+                    # are on the same host
                     listeners[i] = await conn.forward_remote_port(
-                        '127.0.0.1', 8000 + i, ['10.0.0.5', '10.0.0.6'][i],
-                        DESTS[i][1])
+                        '127.0.0.1', 0 if plan.get('dyn_ports') else 8000 + i,
+                        ['10.0.0.5', '10.0.0.6'][i], DESTS[i][1])
+
+                if plan.get('dyn_ports'):
+                    sim.probes['dynamic_listen_ports'] += 1
         except (asyncssh.Error, asyncssh.ChannelListenError, OSError) as exc:
             res['listener_error'] = exc
 
@@ -531,8 +537,10 @@ def run_plan(plan, sched_seed=None, sched_replay=None):
                     await loop.create_unix_connection(
                         lambda: e, '/listen%d.sock' % didx)
                 else:
-                    await loop.create_connection(lambda: e, '127.0.0.1',
-                                                 8000 + didx)
+                    await loop.create_connection(
+                        lambda: e, '127.0.0.1',
+                        listeners[didx].get_port() if plan.get('dyn_ports')
+                        and didx in listeners else 8000 + didx)
             except OSError as exc:
                 e.connect_error = exc
                 e.lost_seen = True
